@@ -123,7 +123,57 @@ func c16impl(c *core.Ctx, im *ssa.Function) {
 	fParam, list, worker := im.Params[0], im.Params[1], im.Params[2]
 	// classify closures
 	var producer, workerFn, closer *ssa.Function
-	for _, a := range im.AnonFuncs {
+	// goroutine bodies started by the implementation: closures, or named helpers (their parameters are
+	// then read as the arguments of the `go` statement)
+	goOf := map[*ssa.Function]*ssa.Go{}
+	var targets []*ssa.Function
+	core.Instrs(im, func(ins ssa.Instruction) {
+		g, isG := ins.(*ssa.Go)
+		if !isG {
+			return
+		}
+		var fn *ssa.Function
+		if mc, isMC := g.Call.Value.(*ssa.MakeClosure); isMC {
+			fn = mc.Fn.(*ssa.Function)
+		} else if h := core.Callee(&g.Call); h != nil && p.InRepo(h) {
+			fn = h
+		}
+		if fn != nil && goOf[fn] == nil {
+			goOf[fn] = g
+			targets = append(targets, fn)
+		}
+	})
+	// binding: what a value used inside a goroutine body denotes in the implementation's frame
+	binding := func(fn *ssa.Function, v ssa.Value) ssa.Value {
+		if prm, isP := core.Resolve(v).(*ssa.Parameter); isP && goOf[fn] != nil {
+			for i, q := range fn.Params {
+				if q == prm && i < len(goOf[fn].Call.Args) {
+					return core.Resolve(goOf[fn].Call.Args[i])
+				}
+			}
+		}
+		if fn.Parent() == im {
+			return capturedBinding(im, fn, core.Path(v))
+		}
+		return nil
+	}
+	// chanName identifies a channel used in fn by the value it denotes in the implementation's frame
+	chanName := func(fn *ssa.Function, v ssa.Value) string {
+		var d ssa.Value
+		if fn == im {
+			d = core.Resolve(v)
+		} else {
+			d = binding(fn, v)
+		}
+		if d == nil {
+			return "?" + core.FuncName(fn) + ":" + core.Path(v)
+		}
+		if mk, isMk := d.(*ssa.MakeChan); isMk {
+			return "chan@" + p.InstrPos(mk)
+		}
+		return core.Path(d)
+	}
+	for _, a := range targets {
 		sendsJob, callsF, waits := false, false, false
 		core.Instrs(a, func(ins ssa.Instruction) {
 			switch x := ins.(type) {
@@ -137,9 +187,7 @@ func c16impl(c *core.Ctx, im *ssa.Function) {
 					}
 				}
 			case *ssa.Send:
-				if len(a.Params) == 0 {
-					sendsJob = true
-				}
+				sendsJob = true
 			}
 		})
 		switch {
@@ -193,7 +241,7 @@ func c16impl(c *core.Ctx, im *ssa.Function) {
 			// the loop ranges over the captured list
 			overList := false
 			core.Instrs(producer, func(ins ssa.Instruction) {
-				if ia, isIA := ins.(*ssa.IndexAddr); isIA && capturedBinding(im, producer, core.Path(ia.X)) == ssa.Value(list) && ascendingIndex(ia.Index) {
+				if ia, isIA := ins.(*ssa.IndexAddr); isIA && binding(producer, ia.X) == ssa.Value(list) && ascendingIndex(ia.Index) {
 					overList = true
 				}
 			})
@@ -221,7 +269,7 @@ func c16impl(c *core.Ctx, im *ssa.Function) {
 		})
 		ok, detail := false, "worker does not call f and send once per element"
 		if fcall != nil && resultSend != nil {
-			isF := capturedBinding(im, workerFn, core.Path(fcall.Call.Value)) == ssa.Value(fParam)
+			isF := binding(workerFn, fcall.Call.Value) == ssa.Value(fParam)
 			start := fcall.Block()
 			fmin, fmax := core.PathCountIter(start, nil, func(ins ssa.Instruction) int {
 				if ins == ssa.Instruction(fcall) {
@@ -249,10 +297,8 @@ func c16impl(c *core.Ctx, im *ssa.Function) {
 			// spawn loop: go workerFn in a loop bounded by worker, preceded by wg.Add(1) in the same block
 			var goW *ssa.Go
 			core.Instrs(im, func(ins ssa.Instruction) {
-				if g, isG := ins.(*ssa.Go); isG {
-					if mc, isMC := g.Call.Value.(*ssa.MakeClosure); isMC && mc.Fn == ssa.Value(workerFn) {
-						goW = g
-					}
+				if g, isG := ins.(*ssa.Go); isG && goOf[workerFn] == g {
+					goW = g
 				}
 			})
 			if goW == nil || !core.InLoop(goW.Block()) {
@@ -312,12 +358,20 @@ func c16impl(c *core.Ctx, im *ssa.Function) {
 			// all closes of the result channel in the whole implementation: exactly this one
 			resName := ""
 			if resultSend != nil {
-				resName = core.Path(resultSend.Chan)
+				resName = chanName(workerFn, resultSend.Chan)
 			}
 			nClose := 0
-			core.InstrsDeep(im, func(f *ssa.Function, ins ssa.Instruction) {
+			deep := func(fn func(*ssa.Function, ssa.Instruction)) {
+				core.InstrsDeep(im, fn)
+				for _, t := range targets {
+					if t.Parent() != im {
+						core.InstrsDeep(t, fn)
+					}
+				}
+			}
+			deep(func(f *ssa.Function, ins ssa.Instruction) {
 				if ci, isC := ins.(ssa.CallInstruction); isC && core.IsBuiltin(ci.Common(), "close") {
-					if core.Path(ci.Common().Args[0]) == resName {
+					if chanName(f, ci.Common().Args[0]) == resName {
 						nClose++
 						if f != closer {
 							nClose += 10
@@ -330,8 +384,8 @@ func c16impl(c *core.Ctx, im *ssa.Function) {
 			}
 			// only workers send on it
 			badSender := ""
-			core.InstrsDeep(im, func(f *ssa.Function, ins ssa.Instruction) {
-				if s, isS := ins.(*ssa.Send); isS && core.Path(s.Chan) == resName && f != workerFn {
+			deep(func(f *ssa.Function, ins ssa.Instruction) {
+				if s, isS := ins.(*ssa.Send); isS && chanName(f, s.Chan) == resName && f != workerFn {
 					badSender = core.FuncName(f)
 				}
 			})
